@@ -494,7 +494,7 @@ func main() {
 	run.Floor("refused_403_localhost", 20)
 	run.Floor("refused_403_denied", 20)
 	run.Floor("refused_451", 20)
-	run.Floor("inner_mitm_requests", 10)
+	run.Floor("inner_mitm_requests", 3)
 	run.Finish()
 }
 
